@@ -135,8 +135,16 @@ def gen_case(rng, pid, tier):
             ops.append(['ev', 'a', shard_of(inst), ev])
     for inst in insts:
         if inst not in sched and rng.random() < 0.6:
-            ops.append(['fin', inst, thr + rng.choice(DELTAS_MS),
-                        rng.choice(['{"state":"finished"}', '{"state":"killed"}', 'null', ''])])
+            if rng.random() < 0.5:
+                # an exit summary as the publisher writes it: the 'when' of the terminal event is a field
+                # of the payload and independent of the time the record was (re)written
+                when = _spell(rng, thr + rng.choice(DELTAS_MS))
+                data = '{"state":"%s","when":%s,"host":"h%d","data":"%d.0"}' % (
+                    rng.choice(['finished', 'killed', 'aborted']),
+                    when if rng.random() < 0.5 else '"%s"' % when, rng.randrange(3), rng.randrange(3))
+            else:
+                data = rng.choice(['{"state":"finished"}', '{"state":"killed"}', 'null', ''])
+            ops.append(['fin', inst, thr + rng.choice(DELTAS_MS), data])
     servers = ['srv%d.x.com' % i for i in range(rng.randint(0, 3))]
     for _ in range(rng.randint(0, 14) if servers else 0):
         srv = rng.choice(servers)
